@@ -80,5 +80,19 @@ check("C09", "fault_enumeration",
       "get_locals() is exactly the declarations of completed top-level statements, and a sanity script evaluates.",
       "Trusted: hook H2 (read-only accessor), mark() statements as statement-progress oracle. Size of the parked conversion saves is not asserted.",
       "fault injection at every callback invocation + invariant check on hooked engine state, under ASan", "DESIGN.md section 5 C09")
+check("C13", "exploration",
+      "40/2000 rounds: a fresh engine is driven by 2..16 threads running seeded operation lists (shared calls, colliding locals, def/global/class/"
+      "add(fun)/add(type_conversion), calls of registrations other threads published after they returned, use() of one file, get_state) under "
+      "ThreadSanitizer with seeded yields before every lock acquisition (hook H4). Oracles: TSan reports with chaiscript frames (de-duplicated "
+      "by frame pair), per-thread results vs sequential expectation, visibility of published registrations, final inventory, use-once counter, "
+      "watchdog for deadlock. Evidence reports distinct schedule signatures and thread switches observed.",
+      "Trusted: g++ ThreadSanitizer (std::mutex/shared_mutex are intercepted), hook H4. Schedules are sampled, not enumerated.",
+      "race detector + history/visibility oracles over randomized multi-threaded stress with injected yields", "DESIGN.md section 5 C13")
+check("C14", "exploration",
+      "350/60k histories of create/define/use/probe/destroy over 3 engine slots (placement-new at a fixed re-used address, or heap) executed "
+      "from the main thread and 3 long-lived workers (create/destroy on different threads) with colliding names; after every operation live "
+      "engines are probed for every name on the acting and a random thread against a per-engine, per-thread dictionary model; ASan on.",
+      "Trusted: the dictionary model; operations are sequential across threads (concurrency is C13).",
+      "model-checked histories over multiple engine instances and threads, under ASan", "DESIGN.md section 5 C14")
 for _p in ["C%02d" % i for i in range(2, 21) if "C%02d" % i not in CHECKS]:
     NA[_p] = "check not implemented yet in this revision (work in progress, see DESIGN.md); nothing is claimed"
